@@ -116,3 +116,5 @@ func (c *Ctx) callersOf(id string) []string {
 	sort.Strings(out)
 	return out
 }
+
+func regexpMatchString(pat, s string) (bool, error) { return regexp.MatchString(pat, s) }
